@@ -236,6 +236,11 @@ func checkCmd(args []string) {
 	// collect
 	total, discharged, violations := 0, 0, 0
 	var solverTime, maxTime float64
+	type slowObl struct {
+		name, solver string
+		t            float64
+	}
+	var slow []slowObl
 	bySolver := map[string]int{}
 	var samples []map[string]any
 	var funcs []map[string]any
@@ -329,6 +334,9 @@ func checkCmd(args []string) {
 			if o.TimeS > maxTime {
 				maxTime = o.TimeS
 			}
+			if o.Expect == "unsat" {
+				slow = append(slow, slowObl{o.Name, o.Solver, o.TimeS})
+			}
 			if o.Status == "discharged" {
 				discharged++
 				d++
@@ -369,6 +377,14 @@ func checkCmd(args []string) {
 		"integers: exact machine arithmetic per Go type (wrap-around modelled); slice capacities < 2^62",
 		"dropped by the extraction: logging/tracing/metrics calls, goroutine scheduling, channels, recover, memory limits, dependency bodies, termination")
 	sort.Strings(trusted)
+	sort.Slice(slow, func(i, j int) bool { return slow[i].t > slow[j].t })
+	var slowest []map[string]any
+	for i, x := range slow {
+		if i >= 5 {
+			break
+		}
+		slowest = append(slowest, map[string]any{"obligation": x.name, "solver": x.solver, "time_s": round3(x.t)})
+	}
 	ev := map[string]any{
 		"property_id": pl.Property,
 		"tier":        *tier,
@@ -384,6 +400,7 @@ func checkCmd(args []string) {
 			"by_solver":          bySolver,
 			"solver_time_s":      round3(solverTime),
 			"max_obligation_s":   round3(maxTime),
+			"slowest":            slowest,
 			"failed_obligations": failed,
 			"known_findings":     knownList,
 			"cross_solver":       cross,
